@@ -1,4 +1,8 @@
 import RsslVerif.Model.Targets
+import RsslVerif.Model.SimplifyCbuffers
+import RsslVerif.Model.HlslModule
+import RsslVerif.Model.GenHlsl
+import RsslVerif.Gen.CbufferTables
 import RsslVerif.Lemmas.MacroLite
 /-!
 # C18 — targets agree on everything that is target-independent
@@ -590,6 +594,379 @@ example :
     (bindingsFor codeNameMaps .HlslForDirectX false ds).map comparable =
       .ok [("g_t", .Texture2d, some 3), ("g_c", .ConstantBuffer, some 1)] ∧
     (bindingsFor codeNameMaps .HlslForDirectX false ds).map List.length = .ok 4 ∧
-    (bindingsFor codeNameMaps .Msl false ds).map List.length = .ok 3 := by decide
+    (bindingsFor codeNameMaps .Msl false ds).map comparable =
+      .ok [("g_t", .Texture2d, some 3), ("g_c", .ConstantBuffer, some 1)] := by decide
+
+
+/-! ## 5. Metal rewrites cbuffer blocks before it reflects (`simplify_cbuffers`)
+
+The Metal exporter does not see `cbuffer` blocks: `simplify_cbuffers` has turned each of them into a struct and a
+`ConstantBuffer<struct>` global.  `Model.SimplifyCbuffers` mirrors that rewrite of the root-definition list; the theorems
+say that reflecting the rewritten list on Metal gives, block for block, what the thin model (`report` on `.cbuffer`) says,
+so that every statement above about `bindingsFor` holds for the composition bind -> rewrite -> analyse; in particular a
+cbuffer block keeps exactly one binding on every target whatever its members are (none included). -/
+section Simplify
+open RsslVerif.Model.SimplifyCbuffers RsslVerif.Gen.CbufferTables
+
+/-- Tie to the source: the pass has the modelled text (every cbuffer of the registry, unconditionally; root definitions
+    rewritten one for two), Metal runs it first, slots are assigned before, and every cbuffer block gets a slot. -/
+theorem simplify_cbuffers_as_modelled :
+    simplifyEveryCbuffer = true ∧ mslSimplifiesFirst = true ∧ slotsAssignedBeforeExport = true ∧
+    everyCbufferGetsASlot = true := by decide
+
+/-- one root definition: Metal's analysis of what the pass makes of it = the thin model's report for the declaration -/
+theorem mslReport_simplify_one (rn : NameMaps) (r : Root) :
+    mslReports rn (paramsFor .Msl false) (simplify [r]) =
+      (match toDecl r with
+       | none => .ok []
+       | some d => (report rn .msl (paramsFor .Msl false) d).map (·.toList)) := by
+  cases r with
+  | other => rfl
+  | global n g =>
+    simp only [simplify, mslReports, mslReport, toDecl, Bool.false_eq_true, if_false]
+    cases report rn .msl (paramsFor .Msl false) ⟨n, g.toShape⟩ with
+    | error e => rfl
+    | ok b => simp [Except.map]
+  | cbuffer n ms =>
+    simp only [simplify, mslReports, mslReport, toDecl, if_true, report, reportedName]
+    cases kindTable .msl .ConstantBuffer with
+    | none => rfl
+    | some dk => simp [Except.map, countOf]
+
+theorem simplify_cons (r : Root) (rs : List Root) : simplify (r :: rs) = simplify [r] ++ simplify rs := by
+  cases r <;> simp [simplify]
+
+theorem mslReports_append (rn : NameMaps) (p : Params) (a b : List Root') :
+    mslReports rn p (a ++ b) =
+      (match mslReports rn p a with
+       | .error e => .error e
+       | .ok x => match mslReports rn p b with
+         | .error e => .error e
+         | .ok y => .ok (x ++ y)) := by
+  induction a with
+  | nil =>
+    simp only [List.nil_append, mslReports]
+    cases mslReports rn p b <;> simp
+  | cons d ds ih =>
+    simp only [List.cons_append, mslReports, ih]
+    cases mslReport rn p d with
+    | error e => rfl
+    | ok r =>
+      simp only
+      cases mslReports rn p ds with
+      | error e => rfl
+      | ok x =>
+        simp only
+        cases mslReports rn p b with
+        | error e => rfl
+        | ok y => simp
+
+/-- **Bind, rewrite, analyse = the thin model.**  For any list of root definitions (cbuffer blocks with any members,
+    none included): Metal's reflection of the module `simplify_cbuffers` produces is `reports .. .msl` of the declaration
+    list - one `ConstantBuffer` binding per block under the block's (Metal-mapped) name. -/
+theorem msl_reflects_simplified_module (rn : NameMaps) (rs : List Root) :
+    mslBindings rn rs = reports rn .msl (paramsFor .Msl false) (decls rs) := by
+  unfold mslBindings
+  induction rs with
+  | nil => rfl
+  | cons r rs ih =>
+    rw [simplify_cons, mslReports_append, mslReport_simplify_one, ih]
+    cases r with
+    | other =>
+      simp only [toDecl, decls, List.filterMap_cons]
+      cases reports rn .msl (paramsFor .Msl false) (List.filterMap toDecl rs) <;> simp
+    | global n g =>
+      simp only [toDecl, decls, List.filterMap_cons, reports]
+      cases report rn .msl (paramsFor .Msl false) ⟨n, g.toShape⟩ with
+      | error e => rfl
+      | ok b =>
+        simp only [Except.map]
+        cases reports rn .msl (paramsFor .Msl false) (List.filterMap toDecl rs) <;> rfl
+    | cbuffer n ms =>
+      simp only [toDecl, decls, List.filterMap_cons, reports]
+      cases report rn .msl (paramsFor .Msl false) ⟨n, .cbuffer⟩ with
+      | error e => rfl
+      | ok b =>
+        simp only [Except.map]
+        cases reports rn .msl (paramsFor .Msl false) (List.filterMap toDecl rs) <;> rfl
+
+/-- **All targets report the same descriptor kinds and counts for any module, the Metal rewrite included** (static
+    samplers and buffer addresses aside): HLSL flavour `t` reflecting the module as written vs Metal reflecting the
+    rewritten module.  Full strength for kinds / counts / order; any name maps, any cbuffer members. -/
+theorem kinds_counts_shared_through_simplify (rn : NameMaps) (t : Target) (sba : Bool) (rs : List Root)
+    (ht : backendOf t = .hlsl) :
+    (hlslBindings rn t sba rs).map comparableKindsCounts = (mslBindings rn rs).map comparableKindsCounts := by
+  rw [msl_reflects_simplified_module]
+  have := binding_kinds_counts_shared rn t .Msl sba false (decls rs)
+  unfold bindingsFor at this
+  rw [ht] at this
+  exact this
+
+/-- **Partial (names)**: the same with the binding names, for the code's name maps, provided every declared name is
+    reserved in neither or in both target languages (what is missing for the full statement is that hypothesis; without
+    it the statement is false: `binding_names_not_shared`). -/
+theorem bindings_shared_through_simplify_partial (t : Target) (sba : Bool) (rs : List Root)
+    (ht : backendOf t = .hlsl) (halike : ∀ d ∈ decls rs, reservedAlike d = true) :
+    (hlslBindings codeNameMaps t sba rs).map comparable = (mslBindings codeNameMaps rs).map comparable := by
+  rw [msl_reflects_simplified_module]
+  have := binding_names_kinds_counts_shared_partial t .Msl sba false (decls rs) halike
+  unfold bindingsFor at this
+  rw [ht] at this
+  exact this
+
+/-- a cbuffer block keeps exactly one binding on every target, whatever its members are -/
+theorem cbuffer_block_one_binding_everywhere (n : String) (ms : List String) (hn : reservedAlike ⟨n, .cbuffer⟩ = true) :
+    (hlslBindings codeNameMaps .HlslForDirectX false [.cbuffer n ms]).map comparable = .ok [(n, .ConstantBuffer, some 1)] ∧
+    (hlslBindings codeNameMaps .HlslForVulkan true [.cbuffer n ms]).map comparable = .ok [(n, .ConstantBuffer, some 1)] ∧
+    (mslBindings codeNameMaps [.cbuffer n ms]).map comparable = .ok [(n, .ConstantBuffer, some 1)] := by
+  have h1 : (hlslBindings codeNameMaps .HlslForDirectX false [.cbuffer n ms]).map comparable =
+      .ok [(n, .ConstantBuffer, some 1)] := by
+    simp [hlslBindings, decls, toDecl, reports, report, reportedName, Except.map, comparable, isAddressKind]
+  have h2 : (hlslBindings codeNameMaps .HlslForVulkan true [.cbuffer n ms]).map comparable =
+      .ok [(n, .ConstantBuffer, some 1)] := by
+    simp [hlslBindings, decls, toDecl, reports, report, reportedName, Except.map, comparable, isAddressKind]
+  refine ⟨h1, h2, ?_⟩
+  rw [← bindings_shared_through_simplify_partial .HlslForDirectX false [.cbuffer n ms] rfl
+    (by intro d hd; simp [decls, toDecl] at hd; subst hd; exact hn)]
+  exact h1
+
+set_option maxRecDepth 8000 in
+/-- non-vacuity: an empty block, a block with members and a texture array; the rewritten module has two more root
+    definitions and no cbuffer, and all three targets agree on the compared part -/
+example :
+    let rs : List Root := [.cbuffer "g_empty" [], .global "g_t" (.object .Texture2D (.sized 2) false), .other,
+      .cbuffer "g_cb" ["a", "b"]]
+    simplify rs = [.struct "g_emptyType" [], .global "g_empty" (.object .ConstantBuffer .single false) true,
+      .global "g_t" (.object .Texture2D (.sized 2) false) false, .other,
+      .struct "g_cbType" ["a", "b"], .global "g_cb" (.object .ConstantBuffer .single false) true] ∧
+    (mslBindings codeNameMaps rs).map comparable =
+      .ok [("g_empty", .ConstantBuffer, some 1), ("g_t", .Texture2d, some 2), ("g_cb", .ConstantBuffer, some 1)] ∧
+    (hlslBindings codeNameMaps .HlslForDirectX false rs).map comparable = (mslBindings codeNameMaps rs).map comparable := by
+  decide
+
+end Simplify
+
+
+/-! ## 6. DirectX and Vulkan HLSL differ only in annotations - whole modules, function bodies included
+
+`Model.HlslModule.genModule` puts every reader of the target-derived flags / context fields of hlsl/src/ast_generate.rs at
+its place in the generated module (declarations, struct members, parameters and attributes of the pixel entry point of a
+mesh pipeline); the generator of everything else of a function is a parameter that sees `requires_buffer_address` only. -/
+section HlslModule
+open RsslVerif.Model.HlslModule RsslVerif.Gen.CbufferTables
+
+/-- Tie to the source: the readers of the flags / context fields in hlsl/src/ast_generate.rs are exactly these
+    (function, field) pairs - each is a site of `genModule` - and the three per-primitive sites and the `for_spirv` guard
+    have the modelled text.  (`new` / `prepend_modifiers`: the struct-literal initialisers of the two context fields.) -/
+theorem hlsl_target_sites_as_modelled :
+    ((flagUses.filter (fun u => u.1 == "hlsl/src/ast_generate.rs")).map (fun u => (u.2.1, u.2.2.1))) =
+      [("analyse_per_primitive_attributes", "per_primitive_semantics"),
+       ("analyse_per_primitive_attributes", "pixel_entry_for_mesh"),
+       ("build_single_param", "requires_buffer_address"),
+       ("generate_constant_buffer", "requires_vk_binding"),
+       ("generate_function_inner", "pixel_entry_for_mesh"),
+       ("generate_function_param", "per_primitive_semantics"),
+       ("generate_global_variable", "requires_vk_binding"),
+       ("generate_intrinsic_function", "requires_buffer_address"),
+       ("generate_struct", "per_primitive_semantics"),
+       ("new", "per_primitive_semantics"), ("new", "pixel_entry_for_mesh"),
+       ("prepend_modifiers", "per_primitive_semantics"), ("prepend_modifiers", "pixel_entry_for_mesh")] ∧
+    forSpirvOnlyGuardsPerPrimitiveAnalysis = true ∧ perPrimitiveSitesAsModelled = true := by decide
+
+theorem declTextOpt_erase {σ σ' : Type} (f f' : Flags) (spell : ObjKind → String) (h : σ → σ') (g : GlobalDef σ)
+    (hba : f.requiresBufferAddress = f'.requiresBufferAddress ∨ g.addressFree = true) :
+    (declTextOpt f spell g).erase = (declTextOpt f' spell (g.reslot h)).erase := by
+  obtain ⟨name, kind, arr, slot⟩ := g
+  cases kind with
+  | none => cases slot <;> simp [declTextOpt, GlobalDef.reslot, DeclText.erase, declText]
+  | some k =>
+    have hk : (isBufferAddress k && f.requiresBufferAddress) = (isBufferAddress k && f'.requiresBufferAddress) := by
+      rcases hba with e | e
+      · rw [e]
+      · simp only [GlobalDef.addressFree, Bool.not_eq_eq_eq_not, Bool.not_true] at e
+        simp [e]
+    cases slot <;> simp [declTextOpt, GlobalDef.reslot, DeclText.erase, declText, hk]
+
+/-- the hypothesis under which the buffer-address flag can not show: it is the same on both sides, or the module
+    declares no buffer address and its function generator does not look at the flag -/
+def AddressAgnostic {σ φ τ ε : Type} (f f' : Flags) (genFn : Bool → φ → Except ε τ) (m : Module σ φ) : Prop :=
+  f.requiresBufferAddress = f'.requiresBufferAddress ∨
+  ((∀ g, Root.global g ∈ m.roots → g.addressFree = true) ∧
+   (∀ fd, Root.func fd ∈ m.roots → genFn true fd.code = genFn false fd.code))
+
+theorem genRoot_erase {σ σ' φ τ ε : Type} (f f' : Flags) (pp pp' : PerPrim) (spell : ObjKind → String)
+    (genFn : Bool → φ → Except ε τ) (h : σ → σ') (r : Root σ φ)
+    (hg : ∀ g, r = .global g → (f.requiresBufferAddress = f'.requiresBufferAddress ∨ g.addressFree = true))
+    (hf : ∀ fd, r = .func fd → genFn f.requiresBufferAddress fd.code = genFn f'.requiresBufferAddress fd.code) :
+    (genRoot f pp spell genFn r).map RootText.erase = (genRoot f' pp' spell genFn (r.reslot h)).map RootText.erase := by
+  cases r with
+  | struct s => simp [genRoot, Root.reslot, RootText.erase, Except.map, List.map_map, Function.comp_def]
+  | global g =>
+    simp only [genRoot, Root.reslot, Except.map, RootText.erase]
+    rw [declTextOpt_erase f f' spell h g (hg g rfl)]
+  | func fd =>
+    simp only [genRoot, Root.reslot]
+    rw [hf fd rfl]
+    cases genFn f'.requiresBufferAddress fd.code with
+    | error e => rfl
+    | ok code => simp [Except.map, RootText.erase, List.map_map, Function.comp_def]
+
+theorem genRoots_erase {σ σ' φ τ ε : Type} (f f' : Flags) (pp pp' : PerPrim) (spell : ObjKind → String)
+    (genFn : Bool → φ → Except ε τ) (h : σ → σ') (rs : List (Root σ φ))
+    (hg : ∀ g, Root.global g ∈ rs → (f.requiresBufferAddress = f'.requiresBufferAddress ∨ g.addressFree = true))
+    (hf : ∀ fd, Root.func fd ∈ rs → genFn f.requiresBufferAddress fd.code = genFn f'.requiresBufferAddress fd.code) :
+    (genRoots f pp spell genFn rs).map (List.map RootText.erase) =
+    (genRoots f' pp' spell genFn (rs.map (Root.reslot h))).map (List.map RootText.erase) := by
+  induction rs with
+  | nil => rfl
+  | cons r rs ih =>
+    have h1 := genRoot_erase f f' pp pp' spell genFn h r
+      (fun g e => hg g (by simp [e])) (fun fd e => hf fd (by simp [e]))
+    have h2 := ih (fun g hm => hg g (by simp [hm])) (fun fd hm => hf fd (by simp [hm]))
+    simp only [genRoots, List.map_cons]
+    cases hr : genRoot f pp spell genFn r with
+    | error e =>
+      rw [hr] at h1
+      cases hr' : genRoot f' pp' spell genFn (r.reslot h) with
+      | error e' => rw [hr'] at h1; simpa [Except.map] using h1
+      | ok t' => rw [hr'] at h1; cases h1
+    | ok t =>
+      rw [hr] at h1
+      cases hr' : genRoot f' pp' spell genFn (r.reslot h) with
+      | error e' => rw [hr'] at h1; cases h1
+      | ok t' =>
+        rw [hr'] at h1
+        simp only [Except.map, Except.ok.injEq] at h1
+        simp only
+        cases hrs : genRoots f pp spell genFn rs with
+        | error e =>
+          rw [hrs] at h2
+          cases hrs' : genRoots f' pp' spell genFn (rs.map (Root.reslot h)) with
+          | error e' => rw [hrs'] at h2; simpa [Except.map] using h2
+          | ok ts' => rw [hrs'] at h2; cases h2
+        | ok ts =>
+          rw [hrs] at h2
+          cases hrs' : genRoots f' pp' spell genFn (rs.map (Root.reslot h)) with
+          | error e' => rw [hrs'] at h2; cases h2
+          | ok ts' =>
+            rw [hrs'] at h2
+            simp only [Except.map, Except.ok.injEq] at h2 ⊢
+            simp [h1, h2]
+
+/-- **Two HLSL exports of one module differ only in annotations**: for any module (structs, extern globals, cbuffer
+    blocks, functions with bodies of any size), any two settings of `for_spirv`, any two binding parameter sets, any api
+    slots - with the annotations erased (`: register`, `[[vk::binding]]`, `[[vk::ext_decorate]]`, the
+    `[[vk::ext_extension]]` pair) both exports fail alike or are equal root definition by root definition, *provided the
+    buffer-address flag can not show* (`AddressAgnostic`). -/
+theorem hlsl_exports_differ_only_in_annotations {σ σ' φ τ ε : Type} (fs fs' : Bool) (p p' : Params)
+    (spell : ObjKind → String) (genFn : Bool → φ → Except ε τ) (h : σ → σ') (m : Module σ φ)
+    (ha : AddressAgnostic (flagsOf p) (flagsOf p') genFn m) :
+    (genModule fs p spell genFn m).map (List.map RootText.erase) =
+    (genModule fs' p' spell genFn (m.reslot h)).map (List.map RootText.erase) := by
+  unfold genModule
+  simp only [Module.reslot]
+  apply genRoots_erase
+  · intro g hg
+    rcases ha with e | ⟨e, _⟩
+    · exact Or.inl e
+    · exact Or.inr (e g hg)
+  · intro fd hfd
+    rcases ha with e | ⟨_, e⟩
+    · rw [e]
+    · have := e fd hfd
+      cases (flagsOf p).requiresBufferAddress <;> cases (flagsOf p').requiresBufferAddress <;> simp_all
+
+/-- **DirectX vs Vulkan**: `export_to_hlsl(ir, false)` on the module bound for DirectX and `export_to_hlsl(ir, true)` on
+    the module bound for Vulkan (no buffer addresses requested) differ only in annotations - unconditionally. -/
+theorem dx_vk_differ_only_in_annotations {σ σ' φ τ ε : Type} (spell : ObjKind → String)
+    (genFn : Bool → φ → Except ε τ) (h : σ → σ') (m : Module σ φ) :
+    (genModule false (paramsFor .HlslForDirectX false) spell genFn m).map (List.map RootText.erase) =
+    (genModule true (paramsFor .HlslForVulkan false) spell genFn (m.reslot h)).map (List.map RootText.erase) :=
+  hlsl_exports_differ_only_in_annotations false true _ _ spell genFn h m (Or.inl (by decide))
+
+/-- **Vulkan with vs without buffer addresses**: beyond annotations the two differ only where a buffer address is
+    declared or its methods are called - if the module declares none and no body depends on the flag, they are equal. -/
+theorem vk_vkba_differ_only_where_addresses_are {σ σ' φ τ ε : Type} (spell : ObjKind → String)
+    (genFn : Bool → φ → Except ε τ) (h : σ → σ') (m : Module σ φ)
+    (hg : ∀ g, Root.global g ∈ m.roots → g.addressFree = true)
+    (hf : ∀ fd, Root.func fd ∈ m.roots → genFn true fd.code = genFn false fd.code) :
+    (genModule true (paramsFor .HlslForVulkan false) spell genFn m).map (List.map RootText.erase) =
+    (genModule true (paramsFor .HlslForVulkan true) spell genFn (m.reslot h)).map (List.map RootText.erase) :=
+  hlsl_exports_differ_only_in_annotations true true _ _ spell genFn h m (Or.inr ⟨hg, hf⟩)
+
+/-- **Function level, citing C01's exporter model**: with `Model.GenHlsl.genFunc` (expressions, statements, literals,
+    calls, intrinsics of the scalar subset - the generator C01 proves meaning-preserving) as the function generator, the
+    DirectX and Vulkan exports of any module are equal up to annotations; `genFunc` takes the name context only, so the
+    generated functions are literally the same terms on both sides. -/
+theorem dx_vk_differ_only_in_annotations_c01 {σ σ' : Type} (spell : ObjKind → String) (cx : RsslVerif.Model.GenHlsl.Ctx)
+    (h : σ → σ') (m : Module σ RsslVerif.Model.Ir.Func) :
+    (genModule false (paramsFor .HlslForDirectX false) spell (fun _ => RsslVerif.Model.GenHlsl.genFunc cx) m).map
+      (List.map RootText.erase) =
+    (genModule true (paramsFor .HlslForVulkan false) spell (fun _ => RsslVerif.Model.GenHlsl.genFunc cx) (m.reslot h)).map
+      (List.map RootText.erase) :=
+  dx_vk_differ_only_in_annotations spell _ h m
+
+theorem isPerPrim_noPerPrim (f : Field) : isPerPrim noPerPrim f = false := by
+  unfold isPerPrim noPerPrim
+  cases f.userSemantic <;> rfl
+
+theorem counts_dx_aux {σ φ τ ε : Type} (spell : ObjKind → String) (genFn : Bool → φ → Except ε τ)
+    (rs : List (Root σ φ)) (ts : List (RootText σ τ))
+    (h : genRoots (flagsOf (paramsFor .HlslForDirectX false)) noPerPrim spell genFn rs = .ok ts) :
+    (counts ts).2.1 = 0 ∧ (counts ts).2.2.1 = 0 ∧ (counts ts).2.2.2 = 0 := by
+  induction rs generalizing ts with
+  | nil => simp only [genRoots] at h; cases h; simp [counts]
+  | cons r rs ih =>
+    simp only [genRoots] at h
+    cases hr : genRoot (flagsOf (paramsFor .HlslForDirectX false)) noPerPrim spell genFn r with
+    | error e => simp [hr] at h
+    | ok t =>
+      cases hrs : genRoots (flagsOf (paramsFor .HlslForDirectX false)) noPerPrim spell genFn rs with
+      | error e => simp [hr, hrs] at h
+      | ok ts' =>
+        simp only [hr, hrs] at h
+        cases h
+        obtain ⟨i1, i2, i3⟩ := ih ts' hrs
+        cases r with
+        | struct s =>
+          simp only [genRoot] at hr; cases hr
+          simp [counts, i1, i2, i3, isPerPrim_noPerPrim]
+        | global g =>
+          simp only [genRoot] at hr; cases hr
+          obtain ⟨name, kind, arr, slot⟩ := g
+          cases slot <;> simp [counts, i1, i2, i3, declTextOpt, declText, flagsOf, paramsFor, paramsDefault]
+        | func fd =>
+          simp only [genRoot] at hr
+          cases hc : genFn (flagsOf (paramsFor .HlslForDirectX false)).requiresBufferAddress fd.code with
+          | error e => simp [hc] at hr
+          | ok code =>
+            simp only [hc] at hr; cases hr
+            simp [counts, i1, i2, i3, isPerPrim_noPerPrim, noPerPrim]
+
+/-- a DirectX export carries no `[[vk::..]]` annotation of any kind -/
+theorem dx_has_no_vk_annotations {σ φ τ ε : Type} (spell : ObjKind → String) (genFn : Bool → φ → Except ε τ)
+    (m : Module σ φ) (ts : List (RootText σ τ))
+    (h : genModule false (paramsFor .HlslForDirectX false) spell genFn m = .ok ts) :
+    (counts ts).2.1 = 0 ∧ (counts ts).2.2.1 = 0 ∧ (counts ts).2.2.2 = 0 := by
+  unfold genModule at h
+  simp only [analyse, Bool.not_false, if_true] at h
+  exact counts_dx_aux spell genFn m.roots ts h
+
+/-- non-vacuity: a mesh pipeline whose mesh entry declares `MATERIAL` per-primitive, a struct with that member, a pixel
+    entry reading it, a bound texture: the Vulkan export has one binding attribute, two decorations and the extension
+    pair; the DirectX export has one register annotation and nothing else; erased they are equal -/
+example :
+    let m : Module Nat Unit :=
+      { roots := [.struct ⟨"Prim", [⟨"material", some "MATERIAL"⟩, ⟨"pos", none⟩]⟩,
+                  .global ⟨"g_t", some .Texture2D, .single, some 0⟩,
+                  .func ⟨1, [], ["MATERIAL"], ()⟩,
+                  .func ⟨2, [⟨"i_pos", none⟩, ⟨"i_material", some "MATERIAL"⟩], [], ()⟩],
+        pipeline := some [(.Mesh, 1), (.Pixel, 2)] }
+    let gen : Bool → Unit → Except Unit Unit := fun _ _ => .ok ()
+    (genModule true (paramsFor .HlslForVulkan false) (fun _ => "T") gen m).map counts = .ok (0, 1, 2, 1) ∧
+    (genModule false (paramsFor .HlslForDirectX false) (fun _ => "T") gen m).map counts = .ok (1, 0, 0, 0) := by
+  decide
+
+end HlslModule
 
 end RsslVerif.Thm.C18
